@@ -6,6 +6,7 @@ pub mod bg4;
 pub mod xorb;
 pub mod shard;
 pub mod shard_ops;
+pub mod shard_stream;
 pub mod manager;
 pub mod deduper;
 pub mod session;
@@ -39,6 +40,8 @@ pub fn run(suite: &str, ctx: &mut Ctx) -> bool {
         "interp_search" => interp_search::run(ctx),
         "xorb" => xorb::run_roundtrip(ctx),
         "xorb_validate" => xorb::run_validate(ctx),
+        "shard_stream" => shard_stream::run(ctx),
+        "shard_stream-child" => shard_stream::run_child(ctx),
         "crash" => crash::run_parent(ctx),
         "crash-child" => crash::run_child(ctx),
         _ => return false,
